@@ -50,11 +50,17 @@ def verdict(tab):
     return (tab.finished, tab.completed, tab.premature, tab.valid, tab.invalid)
 
 
-def unlimited(logic, argstr, seed):
+def unlimited(logic, argstr, seed, cap=None):
+    '''The reference run without any limit, driven by the step loop that build() is.  With `cap`
+    the loop is abandoned after cap + 1 steps (the proof is then outside the stated bound on the
+    proof length) and None is returned -- no option of the tableau is used for that.'''
     from pytableaux.lang import Argument
     from pytableaux.proof import Tableau
     reset_order(seed)
-    tab = Tableau(logic, Argument(argstr)).build()
+    tab = Tableau(logic, Argument(argstr))
+    while tab.step() is not None:
+        if cap is not None and len(tab.history) > cap:
+            return None
     return signature(tab), verdict(tab), len(tab), len(tab.open)
 
 
@@ -272,15 +278,15 @@ def unit(arg):
     for argstr in argstrs:
         try:
             if kind == 'limit':
-                base = unlimited(logic, argstr, seed)
-                if len(base[0]) > (extra or 40):
+                base = unlimited(logic, argstr, seed, cap=(extra or 40))
+                if base is None or len(base[0]) > (extra or 40):
                     # outside the stated bound on proof length (cost grows quadratically)
                     out['skipped_long'] = out.get('skipped_long', 0) + 1
                     continue
                 ex, paths = explore(lambda d: limit_fn(d, logic, argstr, seed, base), (), budget)
             elif kind == 'time':
-                base = unlimited(logic, argstr, seed)
-                if len(base[0]) > 60:
+                base = unlimited(logic, argstr, seed, cap=60)
+                if base is None or len(base[0]) > 60:
                     out['skipped_long'] = out.get('skipped_long', 0) + 1
                     continue
                 nclock, models = extra if isinstance(extra, (list, tuple)) else (extra, False)
